@@ -116,6 +116,9 @@ def gen_case(rng, tier):
     c = {"kind": f"v{ver}", "version": ver, "m_sectors": ms, "size": size, "bat": bat, "first_block": hdr_clusters * ms,
          "file_size": (top + 2) * cs, "place": place, "mode": mode, "salt": rng.randrange(1 << 30)}
     c["reqs"] = gen_requests(rng, size, cs, n=6)
+    if pos and (c["salt"] >> 2) & 1:
+        # no slack: the file ends exactly with its physically last cluster
+        c["file_size"] = (max(bat) * 512 + cs) if ver == 1 else (top + 1) * cs
     c["in_use"] = (c["salt"] & 3) == 0          # m_DiskInUse set (derived from the salt: the random stream is unchanged)
     return c
 
